@@ -73,8 +73,10 @@ def _operator(draw, names, depth, allow_stack=True):
         }
     if pick <= 14:
         return {'op': 'smapper', 'name': names('sm'), 'hp': draw(_HP)}
-    if pick <= 16:
+    if pick <= 15:
         return {'op': 'twice', 'name': names('tw')}
+    if pick <= 16:
+        return {'op': 'siamese', 'name': names('si'), 'hp': draw(_HP)}
     if not allow_stack:
         return draw(_simple(names))
     nb = draw(st.integers(1, 2))
@@ -123,6 +125,14 @@ def build(expr):
         return ops.StatefulMapper(actors.St.builder(expr['name'], 1, 1, **expr['hp']))
     if op == 'twice':
         return ops.Twice(actors.Fn.builder(expr['name'], 2, 1))
+    if op == 'siamese':
+        n = expr['name']
+        return ops.Siamese(
+            actors.St.builder(n, 1, 1, **expr['hp']),
+            actors.Fn.builder(f'{n}.l', 1, 1),
+            actors.Fn.builder(f'{n}.r', 1, 1),
+            actors.Fn.builder(f'{n}.red', 2, 1),
+        )
     if op == 'fullstack':
         n = expr['nsplits']
         name = expr['name']
@@ -148,16 +158,26 @@ def _identity(a, t, l):
     return a, t, l
 
 
-def _actor(kind, name, h, train_on, x):
-    """Value of applying actor (kind) on x, trained (if stateful) on train_on=(features, labels)."""
-    if kind == 'st':
-        sigma = T('S', name, h, BOT, train_on[0], train_on[1])
-        return T('A', name, h, sigma, x)
-    return T('F', name, h, x)
+class Sem:
+    """Semantics of a single actor application inside the denotation; the default is training from scratch."""
+
+    def state(self, name, h, train_on):
+        """State of the stateful actor ``name`` trained on train_on=(features, labels)."""
+        return T('S', name, h, BOT, train_on[0], train_on[1])
+
+    def actor(self, kind, name, h, train_on, x):
+        """Value of applying actor (kind) on x, trained (if stateful) on train_on."""
+        if kind == 'st':
+            return T('A', name, h, self.state(name, h, train_on), x)
+        return T('F', name, h, x)
 
 
-def denote(expr, scope=_identity):
+_SEM = Sem()
+
+
+def denote(expr, scope=_identity, sem=_SEM):
     """D(expr composed onto scope): (a, t, l) -> (a', t', l')."""
+    _actor = sem.actor
     op = expr['op']
     if op == 'seq':
         items = expr['items']
@@ -165,10 +185,10 @@ def denote(expr, scope=_identity):
         for i, item in enumerate(items):
             if item['op'] == 'seq' and i > 0:
                 # A >> (B >> C): the parenthesised right side is composed on its own and then *extended* onto the left
-                inner, outer = denote(item), fn
+                inner, outer = denote(item, sem=sem), fn
                 fn = (lambda inner, outer: lambda a, t, l: inner(*outer(a, t, l)))(inner, outer)
             else:
-                fn = denote(item, fn)
+                fn = denote(item, fn, sem)
         return fn
     if op == 'simple':
         name, h = expr['name'], hp(expr['hp'])
@@ -214,11 +234,24 @@ def denote(expr, scope=_identity):
             return T('F', expr['name'], hp({}), a1, a2), T('F', expr['name'], hp({}), t1, t2), l
 
         return twice
+    if op == 'siamese':
+
+        def siamese(a, t, l):
+            a, t, l = scope(a, t, l)
+            n, h, e = expr['name'], hp(expr['hp']), hp({})
+            sigma = sem.state(n, h, (t, l))
+            out = []
+            for x in (a, t):
+                sides = [T('A', n, h, sigma, T('F', f'{n}.{side}', e, x)) for side in ('l', 'r')]
+                out.append(T('F', f'{n}.red', e, *sides))
+            return out[0], out[1], l
+
+        return siamese
     if op == 'fullstack':
         n, name, e = expr['nsplits'], expr['name'], hp({})
 
         def fullstack(a, t, l):
-            cvs = T('S', f'{name}.cv', e, BOT, t, l)
+            cvs = sem.state(f'{name}.cv', e, (t, l))
             feats = T('A', f'{name}.cv', e, cvs, t)
             labs = T('A', f'{name}.cv', e, cvs, l)
             folds = []
@@ -230,7 +263,7 @@ def denote(expr, scope=_identity):
                 folds.append((a_i, t_i, l_i, test_i, te_l))
             stacks, reds = [], []
             for base in expr['bases']:
-                d = denote(base)
+                d = denote(base, sem=sem)
                 stacks.append(T('F', f'{name}.stk', e, *[d(test_i, t_i, l_i)[0] for a_i, t_i, l_i, test_i, _ in folds]))
                 reds.append(T('F', f'{name}.red', e, *[d(a_i, t_i, l_i)[0] for a_i, t_i, l_i, _, _ in folds]))
             return (
@@ -274,6 +307,10 @@ def classes(expr):
             out.add('custom-op')
         elif e['op'] == 'twice':
             out.add('multi-expand')
+        elif e['op'] == 'siamese':
+            nst += 1
+            out.add('shared-group')
+            out.add('custom-op')
         elif e['op'] == 'fullstack':
             nst += 1
             out.add('fullstack')
